@@ -111,6 +111,19 @@ def py_canon_class(t):
     return frozenset([(i, j, k, l), (j, i, k, l), (i, j, l, k), (j, i, l, k), (k, l, i, j), (l, k, i, j), (k, l, j, i), (l, k, j, i)])
 
 
+def srepr(x):
+    """repr that survives keys whose own __repr__ raises (e.g. an out-of-table strain pair)"""
+    try:
+        return repr(x)
+    except Exception:
+        try:
+            if isinstance(x, tuple):
+                return "(" + ", ".join(srepr(i) if not hasattr(i, "_fields") else srepr(tuple(i)) for i in tuple.__iter__(x)) + ")"
+        except Exception:
+            pass
+        return "<unprintable %s>" % type(x).__name__
+
+
 def native(fn, *args):
     try:
         return ("return", fn(*args))
@@ -170,7 +183,7 @@ def run(s):
                 vals = ints_of_model(r.model, names)
                 obs = native(fn, *vals)
                 exp = expect(*vals)
-                r.replay = {"input": vals, "observed": repr(obs), "expected": repr(exp), "reproduced": not exp_matches(obs, exp)}
+                r.replay = {"input": vals, "observed": srepr(obs), "expected": srepr(exp), "reproduced": not exp_matches(obs, exp)}
                 r.witness_id = "%s%r" % (getattr(fn, "__qualname__", fn), tuple(vals))
             return r
         return attach
@@ -263,7 +276,7 @@ def run(s):
                 bad = obs[0] != "raise"
             else:
                 bad = obs[0] != "return" or tuple(obs[1].standard) not in exp[1]
-            r.replay = {"input": vals, "observed": repr(obs), "reproduced": bad}
+            r.replay = {"input": vals, "observed": srepr(obs), "reproduced": bad}
             r.witness_id = "C.from_standard%r" % (tuple(vals),)
         return r
     s.oblige("C10.C.from_standard", c_from_standard, ["voigt.ModulusRepresentation.from_standard"])
@@ -292,7 +305,7 @@ def run(s):
             o1, o2 = native(voigt.C_.from_standard, *v1), native(voigt.C_.from_standard, *v2)
             same = tuple(v2) in py_canon_class(tuple(v1))
             eq = o1[0] == "return" and o2[0] == "return" and o1[1] == o2[1] and hash(o1[1]) == hash(o2[1])
-            r.replay = {"input": [v1, v2], "observed": [repr(o1), repr(o2)], "same_orbit": same, "equal": eq,
+            r.replay = {"input": [v1, v2], "observed": [srepr(o1), srepr(o2)], "same_orbit": same, "equal": eq,
                         "reproduced": (eq != same) or o1[0] != "return" or o2[0] != "return"}
             r.witness_id = "quotient%r%r" % (tuple(v1), tuple(v2))
         return r
@@ -334,7 +347,7 @@ def run(s):
                 exp = expect(*vals)
             except Exception as e:
                 exp = ("error", repr(e))
-            r.replay = {"input": vals, "observed": repr(obs), "expected": repr(exp),
+            r.replay = {"input": vals, "observed": srepr(obs), "expected": srepr(exp),
                         "reproduced": (obs[0] != exp[0]) or (obs[0] == "return" and obs[1] != exp[1])}
             r.witness_id = "C.from_voigt%r" % (tuple(vals),)
         return r
@@ -393,7 +406,7 @@ def run(s):
                     vals = ints_of_model(r.model, ["i", "j", "k", "l"])
                     obs = native(lambda *t: voigt.C_.from_standard(*t).multiplicity, *vals)
                     exp = len(py_canon_class(tuple(vals)))
-                    r.replay = {"input": vals, "observed": repr(obs), "expected": exp, "reproduced": obs != ("return", exp)}
+                    r.replay = {"input": vals, "observed": srepr(obs), "expected": exp, "reproduced": obs != ("return", exp)}
                     r.witness_id = "multiplicity%r" % (tuple(vals),)
                 return r
         return worst
@@ -543,7 +556,7 @@ def run(s):
         r = check_cases(outs, cases, pre=bound, tier=tier, name="C.create(int)")
         if r.status == core.REFUTED:
             vals = ints_of_model(r.model, ["N"])
-            r.replay = {"input": vals, "observed": repr(native(voigt.C_.create, *vals)), "reproduced": True}
+            r.replay = {"input": vals, "observed": srepr(native(voigt.C_.create, *vals)), "reproduced": True}
             r.witness_id = "C.create(int)%r" % (tuple(vals),)
         return r
     s.oblige("C10.C.create_spellings", c_create, ["voigt.ModulusRepresentation.create"])
